@@ -232,6 +232,11 @@ wrapint wrapint::sdiv(wrapint x) const {
   if (x.is_zero()) {
     CRAB_ERROR("wrapint: signed division by zero ", __LINE__);
   } else {
+    if (_width == 64 && _n == ((uint64_t)1 << 63) && x._n == UINT64_MAX) {
+      // INT64_MIN / -1 does not fit in an int64_t: under modular
+      // arithmetic the result wraps around to INT64_MIN.
+      return *this;
+    }
     ikos::z_number dividend = get_signed_bignum();
     ikos::z_number divisor = x.get_signed_bignum();
     ikos::z_number r = dividend / divisor;
